@@ -33,6 +33,21 @@ LEAN = dict(modules=["MetadorModel.Props.C10"],
             + ["MetadorModel.Follow." + n for n in ['look_shape', 'obsOf_congr', 'step_top', 'run_same_patches',
                                                     'follow_same_skel', 'invAlong_of_step_inv', 'invAlongB_sound']],
             drivers=["drv_mrg"])
+# translated tie (harness/translate_c05.py, shared with C05): `init_stub_skeleton`, `init_stub_base`, `create_stub`,
+# `commit_patch`, `_fresh_manifest` and the stub guard of `merge_files` are regenerated from the source on every run
+LEAN["modules"] += ["MetadorModel.Bridge.MergeFnsTree", "MetadorModel.Bridge.MergeFnsCommit", "MetadorModel.Bridge.MergeFnsStub",
+                    "MetadorModel.Bridge.MergeFns"]
+LEAN["theorems"] += ["MetadorModel.Bridge.MergeFns." + n for n in [
+    'stubFold_eq', 'gen_manifest', 'gen_fresh_manifest', 'gen_commit_patch_ok', 'gen_commit_patch_refused',
+    'gen_commit_patch_linked', 'gen_commit_patch_exts',
+    'gen_init_stub_skeleton_fold', 'gen_init_stub_skeleton', 'gen_init_stub_skeleton_refused', 'gen_init_stub_base',
+    'gen_create_stub', 'gen_stub_ub', 'gen_merge_files_mf', 'gen_stub_merge_refused']]
+
+
+def translate(ctx):
+    """the generator of C05 (one Gen file for both properties)"""
+    from . import c05
+    return c05.translate(ctx)
 
 
 def _sha(p):
